@@ -5,9 +5,11 @@ import functools
 import itertools
 import math
 import operator
+import os
 import pathlib
 import pickle
 import random
+import threading
 from functools import lru_cache, partial, reduce
 from operator import or_
 
@@ -670,9 +672,16 @@ class DiskDict:
             if len(k) > 1:
                 # ensure subparent directories exist
                 fname.parent.mkdir(parents=True, exist_ok=True)
-            # write file!
-            with open(fname, "wb+") as f:
+            # write file! first to a temporary file in the same directory,
+            # which is then atomically moved into place, so that a reader
+            # (or a later run, if this process dies) never sees a partial
+            # entry under the real name
+            tmp = fname.with_name(
+                f"{fname.name}.tmp-{os.getpid()}-{threading.get_ident()}"
+            )
+            with open(tmp, "wb") as f:
                 pickle.dump(v, f)
+            os.replace(tmp, fname)
 
     def __getitem__(self, k):
         try:
@@ -696,15 +705,16 @@ class DiskDict:
                     with open(fname, "rb") as f:
                         self._mem_cache[k] = v = pickle.load(f)
                         return v
-                except (EOFError, pickle.UnpicklingError) as e:
+                except (EOFError, pickle.UnpicklingError) as read_error:
                     # file was not written completely yet
                     # e.g. by another process
                     import time
 
+                    error = read_error
                     time.sleep(self.retry_delay)
 
             # file exists but there is some other error after retrying
-            raise e
+            raise error
 
 
 def get_rng(seed=None):
